@@ -203,6 +203,7 @@ class C18(CheckBase):
                     f['after_bytes'] = rng.choice([0, 10, 80, 500, 2000, 10000])
                 elif kind == 'eio':
                     f['nth_read'] = rng.randrange(1, 400)
+                    f['errno'] = rng.choice(['EIO', 'EIO', 'EINTR', 'ETIMEDOUT', 'EAGAIN'])   # persistent-looking and transient kinds
                 else:
                     f['nth_write'] = rng.randrange(1, 200)
                     f['keep'] = rng.choice([None, 0, 1, 7])
@@ -376,6 +377,8 @@ class C18(CheckBase):
                 if f['kind'] == 'enospc':
                     fs.enospc_plan[fs.abspath('output.snx')] = f['after_bytes']
                 elif f['kind'] == 'eio':
+                    import errno as _errno
+                    fs.eio_errno = getattr(_errno, f.get('errno', 'EIO'))
                     base = fs.read_count.get(fs.abspath(st['cur']), 0)
                     fs.eio_plan[fs.abspath(st['cur'])] = {base + f['nth_read']}
                 elif f['kind'] == 'crash':
